@@ -8,7 +8,8 @@ class Lexer:
     @classmethod
     def parse(cls, expression, in_cell: Cell):
         tokens = []
-        while expression:
+        # blanks after the last token are whitespace like those between tokens
+        while expression.strip():
             for token_class in cls.TOKENS:
                 token, sub_expression = token_class.get(expression.lstrip(), in_cell)
                 if token and token.__class__ is not WhitespaceToken:
